@@ -43,8 +43,8 @@ TABLE = {
     "AQUA/IMU/adaptive": [("default", {}, 4000, 0.1 * DEG, "qt")],
     "AQUA/MARG": [("default", {}, 5000, 0.2 * DEG, "qt")],
     "AQUA/MARG/adaptive": [("default", {}, 5000, 0.2 * DEG, "qt")],
-    "ROLEQ/NED": [("default", {}, None, 0.2 * DEG, "qt")],     # N from the instance's own reference pair
-    "ROLEQ/ENU": [("default", {}, None, 0.2 * DEG, "qt")],
+    "ROLEQ/NED": [("default", {}, None, 0.2 * DEG, "qt"), ("magnetic_ref=field vector", {"magnetic_ref": "ref_vector_ned"}, None, 0.2 * DEG, "qt")],     # N from the instance's own reference pair
+    "ROLEQ/ENU": [("default", {}, None, 0.2 * DEG, "qt"), ("magnetic_ref=field vector", {"magnetic_ref": "ref_vector_enu"}, None, 0.2 * DEG, "qt")],
     # (FKF's error decays like 1/t and more slowly the steeper the dip: N raised from 4000 / 15000 after a 1 440-case run showed 2.06 deg at N = 4000 for dip 36 deg)
     "FKF": [("sigma_g=1", {"sigma_g": 1.0}, 6000, 2.0 * DEG, "qt"), ("default", {}, 22000, 2.0 * DEG, "t")],
     "Complementary/IMU": [("default", {}, 600, 0.05 * DEG, "qt"), ("gain=0.98", {"gain": 0.98}, 3000, 0.1 * DEG, "qt")],
